@@ -19,17 +19,25 @@ ladder for lengths).  For every case
   2. the same call is made with the chosen slots replaced by fresh real SymPy symbols and the
      other slots holding the point's numbers; an exception is a violation ("accepts the same
      call forms as the numeric path");
-  3. every entry of the symbolic result is evaluated with subs(symbol -> Float(value, 40)) and
-     N(., 30) and compared with the numeric result to 1e-12 * scale (scale = 1 for O(1) entries,
-     the magnitude of the lengths / of the numeric result otherwise);
-  4. entries that are exactly 0 (exactly 1) in the numeric result at ALL points of the form must
-     be an exact zero (one) in the symbolic result: a Python / NumPy / SymPy integer or float
-     whose value is 0 (1).  An expression or a 1e-17 residue is not.  (SymPy >= 1.13 has
-     Float(1.0) != Integer(1); exactness is therefore decided on the value of a Number, never
-     with ==, which is also why the repository's own test_symbolic tests fail on this tree.)
+  3. every entry of the symbolic result is evaluated by substituting symbol -> Float(value, 40)
+     (the exact binary value of the float) and evaluating to 30 digits, and compared with the
+     numeric result to 1e-12 * scale (scale = 1 for O(1) entries, the magnitude of the lengths /
+     of the numeric result otherwise).  The bulk evaluation is N(e, 30, subs=...), ~6x faster than
+     rebuilding the expression; every disagreement is re-evaluated with plain e.subs(...) followed
+     by N(., 30) and only reported when that confirms it;
+  4. entries that are exactly 0 (exactly 1) in the numeric result at ALL points of the form and at
+     five all-generic probe points must be an exact zero (one) in the symbolic result: a Python /
+     NumPy / SymPy integer or float whose value is 0 (1).  An expression or a 1e-17 residue is
+     not.  (SymPy >= 1.13 has Float(1.0) != Integer(1): exactness is therefore decided on the
+     value of a Number, never with ==.  That change is also why the repository's own
+     test_symbolic::test_constants/test_functions fail on this tree, and why SMPose.simplify's
+     Float 1.00000000000000 in the bottom row has to count as an exact one.)
 
 Nothing is cached between cases: the symbols, the symbolic call, the numeric call and the
-substitution are redone for every case.
+substitution are redone for every case.  params of a violation: func, form, symbolic (bit per
+slot), point, nsym, allsym, unit (rad|deg) and sym_<group> = none|some|all per argument group
+(th = angle, t = translation, a b c = angle triple, ...), check = call|type|shape|value|exact0|exact1.
+Form names never contain ',' or blanks ('+' joins the options of a form).
 """
 import math, itertools, inspect, re
 import numpy as np
@@ -46,8 +54,11 @@ RULE = ('every callable tagged ":SymPy: supported" (reflection over spatialmath.
         'full product of the per-group letter sets (angles: 0, +-pi/2, pi, 1e-6 and generic; lengths: zero, a '
         'coordinate axis and generic directions at 1e-6..1e6); a case is trivial when every slot value is 0; '
         'distinct = distinct (callable, form, symbolic subset, point)')
-ASSUME = ['SymPy subs(symbol -> Float(value, 40)) followed by N(., 30) evaluates an expression to at least 25 correct '
-          'digits at the exact binary value of the float (trusted: SymPy/mpmath arbitrary precision arithmetic)',
+ASSUME = ['SymPy N(e, 30, subs={symbol: Float(value, 40)}) / e.subs(...) followed by N(., 30) evaluate an expression to '
+          'at least 25 correct digits at the exact binary value of the float (trusted: SymPy/mpmath arbitrary precision '
+          'arithmetic; the two routes are used to cross-check each other on every disagreement)',
+          'an entry is structural when it is exactly 0 (1) in the numeric result at every point of the form and at five '
+          'all-generic probe points',
           'symbols are created real (spatialmath.base.symbolic.symbol default)',
           'matrix arguments built by the harness as object arrays holding Python int 0/1, floats and SymPy '
           'expressions are the same call form as the arrays the supported constructors return (checked: forms '
@@ -550,7 +561,7 @@ def catalogue(tier, seed):
 
     # ---- simplify (all four pose classes); sympy.simplify is slow, so a short point list
     sang = lambda: Group('th', 'ang', 1, [(n, (v,)) for n, v in A.a3 if n in ('0', 'pi/2', '1e-6') or n.startswith('g')])
-    short3 = Group('t', 'len', 3, [l for l in A.v3s if l[0] == 'ex' or l[0].endswith('*1e0')][:2 if tier == 'quick' else 4])
+    short3 = Group('t', 'len', 3, [l for l in A.v3s if l[0] == 'ex' or l[0].endswith('*1e0')][:2 if tier == 'quick' else None])
     short2 = Group('t', 'len', 2, [(n, v[:2]) for n, v in short3.letters])
     mk = {
         'SO2': ([sang()], lambda v: prep(sm.SO2, h_rot2(v[0]), check=False), None),
